@@ -659,6 +659,16 @@ Section Refine.
     unfold py_lower. rewrite show_Z_strip, show_Z_ascii, show_Z_lower, (int_of_show O z _ E). reflexivity.
   Qed.
 
+  (* ... on floats, given what CPython's repr guarantees (it is a Section-variable oracle here): str(f) carries no
+     surrounding whitespace and no upper-case letter, and float() reads it back as f (shortest round-trip repr) *)
+  Theorem convert_inverts_str_float : forall f s, py_str O (VFloat f) = Ok s ->
+    py_strip s = s -> py_lower O s = s -> o_float_of_str O s = Ok f ->
+    convert_value S O (VStr s) TFloat = Ok (VFloat f).
+  Proof.
+    intros f s _ Hs Hl Hf. rewrite convert_refines_spec. unfold spec_convert. simpl isinstance_t.
+    change (py_str O (VStr s)) with (@Ok str s). cbv iota beta zeta. now rewrite Hs, Hl, Hf.
+  Qed.
+
   (* ... and on bools *)
   Theorem convert_inverts_str_bool : forall b s, py_str O (VBool b) = Ok s -> convert_value S O (VStr s) TBool = Ok (VBool b).
   Proof. intros b s H. rewrite convert_refines_spec. destruct b; simpl in H; injection H as <-; reflexivity. Qed.
